@@ -50,6 +50,25 @@ fn fall_back_transition(year: i32) -> Option<(i64, i64)> {
     None
 }
 
+/// the instant at which the local offset rises (DST begins), and by how many seconds
+fn spring_forward_transition(year: i32) -> Option<(i64, i64)> {
+    use chrono::TimeZone;
+    let start = chrono::Utc.with_ymd_and_hms(year, 1, 1, 0, 0, 0).single()?.timestamp();
+    let off = |t: i64| Local.timestamp_opt(t, 0).single().map(|d| i64::from(d.offset().local_minus_utc()));
+    let mut prev = off(start)?;
+    let mut t = start;
+    for _ in 0..366 * 48 {
+        let next = t + 1800;
+        let o = off(next)?;
+        if o > prev {
+            return Some((next, o - prev));
+        }
+        prev = o;
+        t = next;
+    }
+    None
+}
+
 struct DstScenario {
     naming: NamingK,
     append: [bool; 3],
@@ -57,6 +76,10 @@ struct DstScenario {
     suffix: Option<String>,
     writes: [usize; 6],
     trigger_in_run: [bool; 3],
+    /// a family file whose time stamp lies in the hour that is skipped when DST begins (a local
+    /// time that does not exist; such names arise e.g. from files written with use_utc) is in the
+    /// directory from the start
+    gap_file: bool,
 }
 
 fn gen_dst(rng: &mut crate::rng::Rng) -> DstScenario {
@@ -73,12 +96,20 @@ fn gen_dst(rng: &mut crate::rng::Rng) -> DstScenario {
         suffix: if rng.chance(1, 4) { None } else { Some("log".into()) },
         writes: [1 + rng.usize(3), 1 + rng.usize(3), 1 + rng.usize(3), 1 + rng.usize(3), 1 + rng.usize(3), 1 + rng.usize(3)],
         trigger_in_run: [true, rng.chance(1, 2), rng.chance(1, 3)],
+        gap_file: rng.chance(1, 3),
     }
 }
+// (with a file from the skipped hour in place the first run does not append: whether a logger
+// that appends continues in a file whose time stamp cannot be resolved is not what is compared)
 
 /// one history; returns per family file (in the order of the independent family parser): (infix
 /// shape, record ids)
-fn dst_history(sc: &DstScenario, dir: &std::path::Path, instants: &[i64; 7]) -> Result<Vec<(String, Vec<u64>)>, String> {
+fn dst_history(
+    sc: &DstScenario,
+    dir: &std::path::Path,
+    instants: &[i64; 7],
+    preplaced_naive: Option<chrono::NaiveDateTime>,
+) -> Result<Vec<(String, Vec<u64>)>, String> {
     let names = family::NameCfg {
         dir: dir.to_path_buf(),
         basename: "dst".into(),
@@ -87,6 +118,11 @@ fn dst_history(sc: &DstScenario, dir: &std::path::Path, instants: &[i64; 7]) -> 
         suffix: sc.suffix.clone(),
         naming: sc.naming.clone(),
     };
+    if let (Some(naive), Some(fmt)) = (preplaced_naive, names.naming.ts_fmt()) {
+        let _ = std::fs::create_dir_all(dir);
+        let infix = naive.format(fmt).to_string();
+        std::fs::write(names.path(&infix), b"from an earlier life\n").map_err(|e| e.to_string())?;
+    }
     let mut seq = 0u64;
     for run in 0..3 {
         let cfg = FlwCfg {
@@ -145,7 +181,10 @@ fn dst_history(sc: &DstScenario, dir: &std::path::Path, instants: &[i64; 7]) -> 
 
 pub fn child_main(a: &crate::child::ChildArgs) -> i32 {
     let mut ctx = crate::child::ctx_of(a);
-    let sc = gen_dst(&mut ctx.rng);
+    let mut sc = gen_dst(&mut ctx.rng);
+    if sc.gap_file {
+        sc.append[0] = false;
+    }
     let Some((t, drop_s)) = fall_back_transition(2021) else {
         println!("DST-INCONCLUSIVE no fall-back transition found in this zone");
         return 0;
@@ -159,19 +198,35 @@ pub fn child_main(a: &crate::child::ChildArgs) -> i32 {
     }
     let week = 7 * 86_400;
     let shifted = instants.map(|x| x + week);
+    // a wall-clock time in the middle of the interval that was skipped in spring of the same
+    // year, and the same time of day a week later (which exists)
+    let gap = if sc.gap_file {
+        // the latest beginning of DST before the repeated interval (southern zones: the year before)
+        [2021, 2020].iter().filter_map(|y| spring_forward_transition(*y)).find(|(tt, _)| *tt < t).and_then(|(tt, jump)| {
+            use chrono::TimeZone;
+            let before = Local.timestamp_opt(tt - 1, 0).single()?.naive_local();
+            Some(before + chrono::Duration::seconds(1 + jump / 2))
+        })
+    } else {
+        None
+    };
     flw::install_virtual(instants[0] * 1_000_000_000);
-    let amb = dst_history(&sc, &a.dir.join("ambiguous"), &instants);
+    let amb = dst_history(&sc, &a.dir.join("ambiguous"), &instants, gap);
     flw::uninstall_virtual();
     flw::install_virtual(shifted[0] * 1_000_000_000);
-    let plain = dst_history(&sc, &a.dir.join("plain"), &shifted);
+    let plain = dst_history(&sc, &a.dir.join("plain"), &shifted, gap.map(|g| g + chrono::Duration::days(7)));
     flw::uninstall_virtual();
     let desc = format!(
-        "naming {}, append {:?}, {} pass of the repeated interval ({} s), triggers {:?}",
+        "naming {}, append {:?}, {} pass of the repeated interval ({} s), triggers {:?}{}",
         sc.naming.label(),
         sc.append,
         if sc.second_pass { "second" } else { "first" },
         drop_s,
-        sc.trigger_in_run
+        sc.trigger_in_run,
+        match gap {
+            Some(g) => format!(", a file stamped {g} (skipped in spring) is there from the start"),
+            None => String::new(),
+        }
     );
     match (amb, plain) {
         (Ok(a1), Ok(p1)) => {
@@ -189,6 +244,11 @@ pub fn child_main(a: &crate::child::ChildArgs) -> i32 {
 }
 
 fn dst_case(ctx: &mut CaseCtx) -> CaseResult {
+    dst_case_for(ctx, "C06")
+}
+
+/// also used by C10 (no panic whatever the zone and the clock)
+pub fn dst_case_for(ctx: &mut CaseCtx, prop: &str) -> CaseResult {
     let zone = DST_ZONES[(ctx.case / 16) as usize % DST_ZONES.len()];
     let mut res = CaseResult::new(format!("dst|{zone}"));
     let out = match crate::child::spawn(&crate::child::Spawn {
@@ -210,6 +270,22 @@ fn dst_case(ctx: &mut CaseCtx) -> CaseResult {
     let text = String::from_utf8_lossy(&out.stdout).to_string();
     let line = text.lines().find(|l| l.starts_with("DST-")).unwrap_or("").to_string();
     res.count("dst_children", 1);
+    let errtext = String::from_utf8_lossy(&out.stderr).to_string();
+    // the child's panic hook prints: FLMON-CHILD-PANIC thread=<t> at=<file>:<line> msg=<..>
+    if let Some(p) = errtext.lines().find(|l| {
+        l.starts_with("FLMON-CHILD-PANIC")
+            && crate::util::in_repo_file(l.split(" at=").nth(1).unwrap_or(""))
+    }) {
+        res.nontrivial = true;
+        let at = p.split(" at=").nth(1).unwrap_or("").split(' ').next().unwrap_or("").to_string();
+        let file = at.split(':').next().unwrap_or("").to_string();
+        res.violate(
+            "panic",
+            format!("{prop}/panic/dst/{}", crate::util::repo_rel(&file)),
+            format!("TZ={zone}: the child panicked in repository code: {}", p.chars().take(400).collect::<String>()),
+        );
+        return res;
+    }
     if let Some(rest) = line.strip_prefix("DST-OK ") {
         res.nontrivial = true;
         res.add_to_set("dst_scenarios", rest.split(' ').skip(1).collect::<Vec<_>>().join(" "));
@@ -218,7 +294,7 @@ fn dst_case(ctx: &mut CaseCtx) -> CaseResult {
         res.nontrivial = true;
         res.violate(
             "dst-ambiguous-local-time",
-            format!("C06/dst-repeated-hour-differs/{zone}"),
+            format!("{prop}/dst-repeated-hour-differs/{zone}"),
             format!("TZ={zone}: {rest}"),
         );
     } else {
